@@ -379,13 +379,32 @@ impl Prop for Stream {
                 ));
             }
         } else if !is_eof(&err) {
-            out.fail(Fail::new(
-                "spurious-error",
-                format!(
-                    "stream is clean to the end for the reference, library ended with {:?}",
-                    err
-                ),
-            ));
+            // an error is not spurious if what follows the last frame is the beginning of a frame that is already
+            // certain to be invalid (length octet below 5, a complete block with a bad CRC): reporting it early is as good
+            // as waiting for the rest
+            let doomed = is_frame_error(&err) && {
+                let tail_doomed = |d: &[u8]| {
+                    let s = rl::scan_close(d);
+                    let end = s.frames.last().map(|(at, f)| at + rl::encode(f.ctrl, f.dst, f.src, &f.payload).len()).unwrap_or(0);
+                    s.error_at.is_none() && rl::doomed_prefix(&d[end.min(d.len())..])
+                };
+                if case.datagram {
+                    ch.iter().any(|d| tail_doomed(&d[..d.len().min(bufsize)]))
+                } else {
+                    tail_doomed(&ch.iter().flatten().copied().collect::<Vec<u8>>())
+                }
+            };
+            if doomed && !case.discard {
+                out.label("early_error_on_a_doomed_frame");
+            } else {
+                out.fail(Fail::new(
+                    "spurious-error",
+                    format!(
+                        "stream is clean to the end for the reference, library ended with {:?}",
+                        err
+                    ),
+                ));
+            }
         }
         out
     }
@@ -962,7 +981,14 @@ impl Prop for Sessions {
                     dirty = true;
                 }
                 Some(e) => {
-                    if !is_eof(e) {
+                    let all: Vec<u8> = ch.iter().flatten().copied().collect();
+                    let sc = rl::scan_close(&all);
+                    let end = sc.frames.last().map(|(at, f)| at + rl::encode(f.ctrl, f.dst, f.src, &f.payload).len()).unwrap_or(0);
+                    let doomed = !case.discard && !case.datagram && is_frame_error(e) && sc.error_at.is_none() && rl::doomed_prefix(&all[end.min(all.len())..]);
+                    if doomed {
+                        out.label("ended_at_error");
+                        dirty = true;
+                    } else if !is_eof(e) {
                         out.fail(Fail::new(
                             "spurious-error",
                             format!("session #{n}: clean to the end for the reference, library ended with {:?}", e),
